@@ -125,7 +125,7 @@ func (p *Program) isElemOf(v ssa.Value, il *idxLoop) bool {
 			return false
 		}
 		if ia, isIA := u.X.(*ssa.IndexAddr); isIA {
-			return ia.X == il.Slice && ia.Index == il.Index
+			return (ia.X == il.Slice || p.sameValue(ia.X, il.Slice)) && ia.Index == il.Index
 		}
 		src, ok := p.loadSource(u)
 		if !ok {
@@ -429,8 +429,31 @@ func c14Binpack(c *Ctx, fn *ssa.Function) {
 			curPhi = ph
 		}
 	}
-	if chunksPhi == nil || curPhi == nil {
-		c.Ob(fn, "append-every-object", nil, "loop-carried chunk list and open chunk").Unknown("loop-carried variables for the chunk list / open chunk not found (chunks=%v current=%v)", chunksPhi != nil, curPhi != nil)
+	if curPhi == nil {
+		c.Ob(fn, "append-every-object", nil, "loop-carried open chunk").Unknown("loop-carried variable for the open chunk not found")
+		return
+	}
+	if chunksPhi == nil {
+		// the chunk list is never extended inside the loop
+		resets := 0
+		for i, e := range curPhi.Edges {
+			if !il.L.Body[il.L.Head.Preds[i]] {
+				continue
+			}
+			if base, _, ok := appendsSingle(e); ok {
+				for _, pv := range c14PhiLeaves(base, il.L) {
+					if pv != ssa.Value(curPhi) {
+						resets++
+					}
+				}
+			}
+		}
+		o := c.Ob(fn, "flush-before-reset", nil, "whenever the open chunk is replaced by a fresh one inside the loop, the open chunk has been appended to the chunk list on that path")
+		if resets > 0 {
+			o.Fail("the open chunk is replaced inside the loop but the chunk list is never extended there: the replaced chunk's objects are lost")
+		} else {
+			o.Unknown("no loop-carried chunk list found")
+		}
 		return
 	}
 	inLoop := func(v ssa.Value) bool {
@@ -1759,8 +1782,21 @@ func c14r5(c *Ctx) {
 			if l.Head == outermost.Head && !l.Head.Dominates(del.Call.Block()) {
 				return "the insert loop does not precede the delete on every path"
 			}
-			// no iteration may skip the insert
-			if innermostLoop(gc, b).Head == l.Head && !everyIterationPasses(l, mu) {
+			// no iteration may skip the insert (innermost loop) / the next inner loop (enclosing loops)
+			var must ssa.Instruction = mu
+			if innermostLoop(gc, b).Head != l.Head {
+				var inner *Loop
+				for _, l2 := range loopsOf(gc) {
+					if l2.Body[b] && l2.Head != l.Head && l.Body[l2.Head] && (inner == nil || len(l2.Body) > len(inner.Body)) {
+						inner = l2
+					}
+				}
+				if inner == nil {
+					return "nested loop structure not recognised"
+				}
+				must = inner.Head.Instrs[0]
+			}
+			if !everyIterationPasses(l, must) {
 				return "some iteration skips the insert"
 			}
 		}
